@@ -142,6 +142,128 @@ def build_deep_rows(rep, depth):
     return d
 
 
+CAUSE_FILES = ("Semantics.tla", "MC_Semantics.tla", "Cause.tla", "MC_Cause.tla")
+CAUSE_CFG = """SPECIFICATION CSpec
+CONSTANTS
+  Tier = "%(tier)s"
+  L = %(L)d
+  Emit = %(emit)s
+  Mut = "%(mut)s"
+INVARIANT Cause_Explains
+%(invs)s
+CHECK_DEADLOCK FALSE
+"""
+CAUSE_MUTANTS = ("cause_len_first", "cause_map_value_flag_from_key", "cause_quasi_first")
+
+
+def _cause_hash(tier):
+    h = hashlib.sha1()
+    for f in CAUSE_FILES:
+        h.update(open(os.path.join(tlc.SPEC_DIR, f), "rb").read())
+    h.update(tier.encode())
+    return h.hexdigest()[:16]
+
+
+def _run_cause(tier, mut, emit_dir):
+    p = tier_params(tier)
+    os.makedirs(SCRATCH, exist_ok=True)
+    cfg = os.path.join(SCRATCH, f"mc_cause_{tier}_{mut}_{os.getpid()}.cfg")
+    invs = "INVARIANT Cause_NonVacuous\nINVARIANT CEmitObjs\nINVARIANT CEmitRows" if emit_dir else ""
+    with open(cfg, "w") as fh:
+        fh.write(CAUSE_CFG % {"tier": tier, "L": p["L"], "emit": "TRUE" if emit_dir else "FALSE", "mut": mut,
+                              "invs": invs})
+    try:
+        return tlc.run_tlc("MC_Cause.tla", cfg, env={"ROW_DIR": emit_dir or "/nonexistent"}, timeout=7200, heap="16g")
+    finally:
+        os.remove(cfg)
+
+
+def build_cause_rows(rep, tier):
+    """MC_Cause: the explanation path (Cause.tla) on the MC_Semantics grammar plus hostile neighbours.
+    TLC decides Cause_Explains (every rejection is explained, the finder never fails) and writes rows that
+    carry, per object and draw, the outcome and path of the explanation; spec mutants must be rejected."""
+    hsh = _cause_hash(tier)
+    for m in CAUSE_MUTANTS:
+        cache = os.path.join(SCRATCH, f"mutant-{m}-{hsh}.json")
+        if os.path.exists(cache):
+            st = json.load(open(cache))
+            rep.cov.setdefault("spec_mutants", []).append({"mutant": m, "rejected_by": st["violated"], "cached": True})
+        else:
+            res = _run_cause("quick", m, None)
+            if not res.violated:
+                rep.machinery(f"spec mutant {m} of the explanation path is not rejected by Cause_Explains")
+            json.dump({"violated": res.violated}, open(cache, "w"))
+            rep.cov.setdefault("spec_mutants", []).append({"mutant": m, "rejected_by": res.violated})
+        rep.add("spec_mutants_killed")
+    d = os.path.join(SCRATCH, f"rows-cause-{tier}-{hsh}")
+    if os.path.exists(os.path.join(d, "DONE")):
+        st = json.load(open(os.path.join(d, "DONE")))
+        rep.cov["states"] = rep.cov.get("states", 0) + st["distinct"]
+        rep.cov["transitions"] = rep.cov.get("transitions", 0) + st["generated"]
+        rep.cov.setdefault("tlc_runs", []).append({"label": "MC_Cause (cached rows of this spec version)", **st})
+        return d
+    for old in glob.glob(os.path.join(SCRATCH, f"rows-cause-{tier}-*")):
+        shutil.rmtree(old, ignore_errors=True)
+    os.makedirs(d, exist_ok=True)
+    res = _run_cause(tier, "none", d)
+    rep.tlc(res, f"MC_Cause {tier}: Cause_Explains + rows")
+    if res.violated:
+        shutil.rmtree(d, ignore_errors=True)
+        rep.machinery(f"MC_Cause ({tier}) violates {res.violated}: the intended explanation path leaves a rejection "
+                      f"unexplained at hint index {[s_.get('chid') for a_, s_ in res.error_trace][-1:]} - fix the model")
+    with open(os.path.join(d, "DONE"), "w") as fh:
+        json.dump({"distinct": res.distinct, "generated": res.generated, "wall_s": round(res.wall_s, 1)}, fh)
+    return d
+
+
+# the path of container steps named by a violation message ("... index 2 item ...", "key 'a' value ...")
+_STEP = re.compile(r"index (\d+) item |\bkey (?:(?:(?! key | index \d+ item ).){1,300}? value )?|generic superclass ")
+_LEAVES = (("notinst", " not instance of "), ("lit", " != "), ("vale", " violates validator "),
+           ("notsub", " not subclass of "), ("len", " length "), ("nonempty", " non-empty"))
+
+
+def message_path(msg):
+    """Project a violation message onto the abstract path of Cause.tla (steps only; the leaf is searched)."""
+    msg = _ANSI.sub("", msg)
+    body = msg.split(" violates type hint ", 1)[-1]
+    steps = []
+    for m in _STEP.finditer(body):
+        t = m.group(0)
+        if t.startswith("index"):
+            steps.append("idx" + m.group(1))
+        elif t.startswith("generic"):
+            steps.append("generic")
+        elif t.rstrip().endswith("value"):
+            steps.append("val")
+        else:
+            steps.append("key")
+    return steps, body
+
+
+def cause_agrees(model, msg):
+    """``model`` = "found:idx0/key/notinst".  The model's steps must be a prefix of the message's steps (equal
+    unless the model ends in a union, whose members are explained one per bullet) and the leaf must be named."""
+    kind, _, path = model.partition(":")
+    if kind != "found":
+        return False
+    mp_ = [p for p in path.split("/") if p]
+    leaf = mp_[-1] if mp_ else ""
+    msteps = mp_[:-1]
+    steps, body = message_path(msg)
+    if steps[:len(msteps)] != msteps:
+        return False
+    if leaf == "union":
+        return True
+    if len(steps) != len(msteps):
+        return False
+    if leaf.startswith("vale"):
+        return " violates validator " in body
+    for name, needle in _LEAVES:
+        if leaf == name:
+            return needle in body
+    return True
+
+
 def signal_table(rep):
     """Run TLC on Signal.tla (option lattice -> signal) and return {(vt, vk, kind): signal} for rejections."""
     from verifkit.util import scratch
@@ -462,6 +584,23 @@ def _replay_row(w, row, objs, real, jmap, confs, lcm, opts, out):
                                 if not okc:
                                     _issue(out, "C03", "culprit", row, j, objs,
                                            f"{name}: culprits {cul!r:.120} do not begin with the rejected object")
+                                if "cz" in row and name == "die" and jmap[j] != -1:
+                                    mdl = row["cz"][jmap[j]][r]
+                                    out["cause_n"] = out.get("cause_n", 0) + 1
+                                    if not mdl.startswith("found:"):
+                                        # the model of the explanation path says this rejection is NOT explained
+                                        # while the implementation explains it: the model is not the code's
+                                        out["cause_drift"] = out.get("cause_drift", 0) + 1
+                                        if len(out["drift_ex"]) < 5:
+                                            out["drift_ex"].append(f"{short_hint(h)} {short_obj(objs[j])} draw {r}: model "
+                                                                   f"{mdl}, real: {_ANSI.sub('', str(exc))[:160]}")
+                                    elif cause_agrees(mdl, str(exc)):
+                                        out["cause_ok"] = out.get("cause_ok", 0) + 1
+                                    else:
+                                        out["cause_drift"] = out.get("cause_drift", 0) + 1
+                                        if len(out["drift_ex"]) < 5:
+                                            out["drift_ex"].append(f"{short_hint(h)} {short_obj(objs[j])} draw {r}: model "
+                                                                   f"path {mdl}, real: {_ANSI.sub('', str(exc))[:200]}")
             out["n_pairs"] += len(todo)
             if opts.get("viol_confs") and spi == 0 and (row["hid"] + seed) % opts["viol_confs"] == 0:
                 _viol_confs(w, row, hint, cabs, objs, real, jmap, verd, todo, lcm, props, out, opts["signal_table"], seed)
@@ -743,4 +882,6 @@ def replay(rep, rows_dir, opts, procs=16):
         tot["drift_ex"] += r["drift_ex"]
         tot["samples"] += r["samples"]
         tot["draw_calls_max"] = max(tot["draw_calls_max"], r["draw_calls_max"])
+        for k in ("cause_n", "cause_ok", "cause_drift"):
+            tot[k] = tot.get(k, 0) + r.get(k, 0)
     return tot
